@@ -426,3 +426,42 @@ func verif_DecodeMessageInto(data, key []byte, m msg.Message) {
 		verif.Ensures(!verif.Called("json.Unmarshal"), "no_decoder_that_skips_the_frame_checks")
 	}
 }
+
+// sendSidMessage (a probe with a lowered TTL must not leave the socket lowered:
+// the same socket carries the detect reply and later the tunnel): whenever the
+// TTL was changed for the probe, it is set back to the value read before - on
+// every return path, a failed send included.
+//
+//verif:contract ~/pkg/nathole.sendSidMessage
+//verif:props C20
+//verif:kinds post
+func verif_sendSidMessage(ctx context.Context, conn *net.UDPConn, sid string, transactionID string, addr string, key []byte, ttl int) {
+	verif.ResetEvents()
+	_ = sendSidMessage(ctx, conn, sid, transactionID, addr, key, ttl)
+	const evSet, evGet = ").SetTTL", ").TTL$"
+	if verif.Called(evSet) && verif.NthRet[error](evSet, 0, 0) == nil {
+		verif.Ensures(ttl > 0 && verif.NthArg[int](evSet, 0, 1) == ttl, "lowered_only_on_request")
+		verif.Ensures(verif.CallCount(evSet) == 2 && verif.NthArg[int](evSet, 1, 1) == verif.RetInt(evGet, 0), "socket_ttl_restored_on_every_path")
+	} else {
+		verif.Ensures(verif.CallCount(evSet) <= 1, "nothing_to_restore")
+	}
+}
+
+// EncodeMessage (C17 "lossless", the datagram side): the plaintext that is
+// encrypted is the content of a buffer created empty for this message, into
+// which the one frame codec wrote exactly this message - so a datagram carries
+// exactly one frame, never the leftovers of an earlier one.
+//
+//verif:contract ~/pkg/nathole.EncodeMessage
+//verif:props C17 C20
+func verif_EncodeMessage(m msg.Message, key []byte) {
+	verif.ResetEvents()
+	out, err := EncodeMessage(m, key)
+	const evBuf, evWrite, evBytes, evEnc = "bytes.NewBuffer", "msg.WriteMsg", "bytes.Buffer).Bytes", "golib/crypto.Encode"
+	b := verif.Ret[*bytes.Buffer](evBuf, 0)
+	verif.Ensures(verif.CallCount(evBuf) == 1 && len(verif.NthArg[[]byte](evBuf, 0, 0)) == 0 && !verif.Called("sync.Pool).Get"), "buffer_created_empty_for_this_message")
+	verif.Ensures(verif.CallCount(evWrite) == 1 && verif.Same(verif.NthArg[any](evWrite, 0, 0), any(b)) && verif.Same(verif.NthArg[any](evWrite, 0, 1), any(m)), "one_frame_of_this_message_written_into_it")
+	if err == nil {
+		verif.Ensures(verif.RetErr(evWrite, 0) == nil && verif.CalledWith(evBytes, 0, b) && verif.Same(verif.NthArg[[]byte](evEnc, 0, 0), verif.Ret[[]byte](evBytes, 0)) && verif.CalledWith(evEnc, 1, key) && verif.Same(out, verif.Ret[[]byte](evEnc, 0)), "its_content_encrypted_with_the_session_key_is_the_datagram")
+	}
+}
